@@ -395,4 +395,82 @@ theorem parse_written_operator (ci : OpInfo) (rcodes : List Reader.RCode) (codes
     cases hasSer p <;> simp
   rw [hp]
 
+/-! ## (d) the operators of a subgraph -/
+
+/-- what the reader side needs to know about a written operator -/
+structure OpFacts (ci : OpInfo) (rcodes : List Reader.RCode) (codes : List Code) (p : POp) : Prop where
+  code : ∀ i, opcodeIndex codes p = .ok i → Reader.codeAt rcodes i = .ok (normRCode ci p)
+  flat : (normRCode ci p).op.nng.flat = (normRCode ci p).indices.flat
+  name : ((normRCode ci p).op.name == "AssignVariable" || (normRCode ci p).op.name == "CallOnce") = false
+  conv : (normRCode ci p).op.convLike = false
+
+theorem parse_written_operators (ci : OpInfo) (rcodes : List Reader.RCode) (codes : List Code) (all : List Nat) (b : Nat)
+    (T : List TensorD) : ∀ (pl : List POp) (ol : List OperatorT) (k : Nat),
+    pl.mapM (serialiseOperator codes all) = .ok ol → (∀ p ∈ pl, OpFacts ci rcodes codes p) →
+    Reader.parseOperators rcodes b all.length ol k T = .ok (pl.map (normROp ci all b), T, [])
+  | [], ol, k, h, _ => by
+    simp [pure, Except.pure] at h
+    subst h
+    rfl
+  | p :: rest, ol, k, h, hf => by
+    rw [List.mapM_cons] at h
+    obtain ⟨o, ho, h⟩ := bind_ok h
+    obtain ⟨os, hos, h⟩ := bind_ok h
+    simp only [pure, Except.pure, Except.ok.injEq] at h
+    subst h
+    have f := hf p (List.mem_cons_self ..)
+    have ih := parse_written_operators ci rcodes codes all b T rest os (k + 1) hos (fun q hq => hf q (List.mem_cons_of_mem _ hq))
+    unfold Reader.parseOperators
+    rw [parse_written_operator ci rcodes codes all b T k p o ho f.code f.flat f.name f.conv]
+    simp only [bind, Except.bind]
+    rw [ih]
+    rfl
+
+/-- table facts: the row `Custom` the Ethos-U operator is read back as has the operand order the writer uses for `CustomNpuOp`, is
+not convolution-like -/
+theorem npu_table_fact : opTable.all (fun info => info.name != "CustomNpuOp" ||
+    match lookupOp "Custom", info.inv with
+    | some ci, some x => ci.nng.flat == x.2.2.flat && !ci.convLike
+    | _, _ => false) = true := by decide +kernel
+
+theorem opFacts_of (ci : OpInfo) (hci : lookupOp "Custom" = some ci) (codes : List Code) (opcodes : List OpCodeT)
+    (rcodes : List Reader.RCode) (h2 : codes.mapM serialiseOpCode = .ok opcodes) (h3 : opcodes.mapM Reader.parseOpCode = .ok rcodes)
+    (p : POp) (hp : p.info.tableOk = true) (hok : opOk p = true) (hinv : p.info.inv.isSome = true) : OpFacts ci rcodes codes p := by
+  obtain ⟨x, hx⟩ := Option.isSome_iff_exists.mp hinv
+  unfold opOk at hok
+  simp only [Bool.and_eq_true, bne_iff_ne, ne_eq, Bool.not_eq_true'] at hok
+  obtain ⟨⟨hn1, hn2⟩, hcv⟩ := hok
+  have hcn : ci.name = "Custom" := (lookupOp_tableOk _ _ hci).2
+  have hmem : p.info ∈ opTable := by
+    unfold OpInfo.tableOk at hp
+    simp only [Bool.and_eq_true, beq_iff_eq] at hp
+    have := hp.1.1
+    unfold lookupOp at this
+    exact List.mem_of_find?_eq_some this
+  refine ⟨fun i hi => codeAt_written ci hci codes opcodes rcodes h2 h3 p hp i hi, ?_, ?_, ?_⟩
+  · unfold normRCode
+    simp only [hx]
+    by_cases hn : p.info.name = "CustomNpuOp"
+    · rw [if_pos hn]
+      have := List.all_eq_true.mp npu_table_fact _ hmem
+      simp only [hn, hci, hx, bne_self_eq_false, Bool.false_or, Bool.and_eq_true, beq_iff_eq] at this
+      exact this.1
+    · rw [if_neg hn]
+      unfold OpInfo.tableOk at hp
+      simp only [hx, Bool.and_eq_true, beq_iff_eq] at hp
+      exact hp.2.1.symm
+  · unfold normRCode
+    dsimp only
+    by_cases hn : p.info.name = "CustomNpuOp"
+    · rw [if_pos hn, hcn]; decide
+    · rw [if_neg hn]; simp [hn1, hn2]
+  · unfold normRCode
+    dsimp only
+    by_cases hn : p.info.name = "CustomNpuOp"
+    · rw [if_pos hn]
+      have := List.all_eq_true.mp npu_table_fact _ hmem
+      simp only [hn, hci, hx, bne_self_eq_false, Bool.false_or, Bool.and_eq_true, beq_iff_eq, Bool.not_eq_true'] at this
+      exact this.2
+    · rw [if_neg hn]; exact hcv
+
 end VelaVerif.Tflite.Roundtrip
